@@ -489,6 +489,17 @@ def static_oracle(files: dict[str, str]) -> list[dict]:
                     fails.append({"check": "import_resolves", "file": rel, "detail": f"`{line}` designates module {dotted(target) or '<root>'} which is not in the output", "importer": importer, "is_init": is_init, "line": line, "target": target})
                 elif tf in trees and a.name not in top_level_names(trees[tf]):
                     fails.append({"check": "import_resolves", "file": rel, "detail": f"`{line}`: {tf} defines no `{a.name}` and there is no submodule of that name", "importer": importer, "is_init": is_init, "line": line, "target": target})
+        # a package file that binds a foreign module/class under the name of one of its own submodules: importing
+        # that submodule later re-binds the name in the package namespace (= this file's globals)
+        if is_init:
+            for node in tree.body:
+                if isinstance(node, ast.ImportFrom) and node.level > 0:
+                    for a in node.names:
+                        nm = a.asname or a.name
+                        own = (*importer, nm)
+                        t = resolve_level(importer, True, node.level, node.module)
+                        if own in by_module and t is not None and (*t, a.name) != own:
+                            fails.append({"check": "import_resolves", "file": rel, "detail": f"`{ast.unparse(node)}` binds `{nm}` in the namespace of package {dotted(importer) or '<root>'}, which has a submodule `{nm}`: importing the submodule re-binds the name", "importer": importer, "is_init": True, "line": ast.unparse(node), "attr_shadow": True})
         # (3b) each use `alias.Name` of an imported submodule reaches a definition in that submodule
         for node in ast.walk(tree):
             if isinstance(node, ast.Attribute) and isinstance(node.value, ast.Name) and node.value.id in module_alias:
